@@ -246,11 +246,21 @@ func externalProduct(ps pset, c config, seed int) event {
 	ct := rlwe.NewCiphertext(p, 1, levelQ)
 	tr.Must(rlwe.NewEncryptor(p, sk).Encrypt(ptm, ct))
 	_, e.InNoise = decode(p, ct, sk, scale)
+	encs := 0
 	encG := func(g []int) *rgsw.Ciphertext {
 		pt := rlwe.NewPlaintext(p, levelQ)
 		pt.Value = setPoly(rq, g, big.NewInt(1))
-		rq.NTT(pt.Value, pt.Value)
-		pt.IsNTT = true
+		// the plaintext is handed over in one of its four representations (domain x Montgomery form): same g
+		encs++
+		if rep := (seed + encs) % 4; true {
+			pt.IsNTT, pt.IsMontgomery = rep&1 == 0, rep&2 != 0
+			if pt.IsNTT {
+				rq.NTT(pt.Value, pt.Value)
+			}
+			if pt.IsMontgomery {
+				rq.MForm(pt.Value, pt.Value)
+			}
+		}
 		rc := rgsw.NewCiphertext(p, levelQ, levelP, ps.base2)
 		tr.Must(rgsw.NewEncryptor(p, sk).Encrypt(pt, rc))
 		return rc
